@@ -7,7 +7,7 @@
 From Coq Require Import String List NArith PArith Bool.
 Import ListNotations.
 
-Definition name := positive.
+Notation name := positive (only parsing).
 
 Inductive outcome (A:Type) := Ok (a:A) | OutOfFuel.
 Arguments Ok {A} a. Arguments OutOfFuel {A}.
@@ -115,3 +115,14 @@ Inductive order_kind :=
   | OrderUnknown.
 (* a result arm of getPostgresDataTypes *)
 Inductive pgres := Sized (pre suf : string) | Lit (s : string) | PgUnknown.
+(* writeModifySQLForAColumn, new and old column both references:
+     RefRefSilent   - nothing is emitted whatever the two targets are
+     RefRefRetarget - when the targets differ: DROP CONSTRAINT, ALTER COLUMN TYPE, ADD CONSTRAINT *)
+Inductive refref_kind := RefRefSilent | RefRefRetarget | RefRefUnknown.
+(* writeModifySQLForATable, the final ADD CONSTRAINT .. PRIMARY KEY: whenever the key changed / only when a key
+   column is left *)
+Inductive pkadd_kind := PkAlways | PkNonEmpty | PkUnknown.
+(* writeModifySQLForAColumn, type recorded in visitedAttributes for a retained plain autoincrement column:
+   the primitive's type / bigint (what the creation script records) *)
+Inductive autovt_kind := AutoVtPlain | AutoVtBigint | AutoVtUnknown.
+Record dcfg := DCfg { cfg_refref : refref_kind; cfg_pkadd : pkadd_kind; cfg_autovt : autovt_kind }.
